@@ -229,6 +229,40 @@ pub fn tool(cmd: &str, args: &[String]) -> i32 {
                 None => { println!("NO-WITNESS (bounded directed search: all 1- and 2-byte strings, perturbed encodings of boundary vectors, long runs, tight alignments)"); 0 }
             }
         }
+        "ntt-case" => {
+            let pa: Vec<i64> = args[0].split(';').filter(|s| !s.is_empty()).map(|s| s.parse().unwrap()).collect();
+            let pb: Vec<i64> = args[1].split(';').filter(|s| !s.is_empty()).map(|s| s.parse().unwrap()).collect();
+            match crate::falcon::verif::ntt_case(&pa, &pb) {
+                Ok(()) => { println!("the NTT product agrees with the schoolbook negacyclic product on this case"); 0 }
+                Err(why) => { println!("REPRODUCED {}", why); 1 }
+            }
+        }
+        "search-ntt" => {
+            let seed: u64 = args.get(0).and_then(|s| s.parse().ok()).unwrap_or(0);
+            match crate::falcon::verif::search_ntt(seed) {
+                Some(d) => { println!("WITNESS {}", d); 1 }
+                None => { println!("NO-WITNESS (bounded directed search: every power-of-two length up to 1024, 4 operand patterns each)"); 0 }
+            }
+        }
+        "pk-obj-case" => {
+            let n: usize = args[0].parse().unwrap();
+            let h: Vec<i64> = args[1].split(';').filter(|s| !s.is_empty()).map(|s| s.parse().unwrap()).collect();
+            let r = if n == 512 { crate::falcon::verif::pk_obj_case::<512>(&h) } else { crate::falcon::verif::pk_obj_case::<1024>(&h) };
+            match r { Ok(()) => { println!("public key round trip ok"); 0 } Err(why) => { println!("REPRODUCED {}", why); 1 } }
+        }
+        "pk-str-case" => {
+            let n: usize = args[0].parse().unwrap();
+            let b = unhex(args.get(1).map(|s| s.as_str()).unwrap_or(""));
+            let r = if n == 512 { crate::falcon::verif::pk_case::<512>(&b) } else { crate::falcon::verif::pk_case::<1024>(&b) };
+            match r { Ok(()) => { println!("PublicKey::from_bytes agrees with the layout specification on this string"); 0 } Err(why) => { println!("REPRODUCED {}", why); 1 } }
+        }
+        "search-pk" => {
+            let seed: u64 = args.get(0).and_then(|s| s.parse().ok()).unwrap_or(0);
+            match crate::falcon::verif::search_pk(seed) {
+                Some(d) => { println!("WITNESS {}", d); 1 }
+                None => { println!("NO-WITNESS (bounded directed search: special public keys and perturbed encodings, both variants)"); 0 }
+            }
+        }
         "search-verify" => {
             let seed: u64 = args.get(0).and_then(|s| s.parse().ok()).unwrap_or(0);
             let w = crate::falcon::verif::search_verify::<512>(seed)
